@@ -121,7 +121,10 @@ def tile_segments(rng, lo, hi, sizes):
 
 SPECIALS = [np.nan, np.inf, -np.inf, 5e-324, -0.0, 2.2250738585072014e-308 / 4,
             np.frombuffer(np.uint64(0x7ff8dead0000beef).tobytes(), "<f8")[0],   # NaN payload
-            np.frombuffer(np.uint64(0xfff0000000000001).tobytes(), "<f8")[0]]   # signalling NaN
+            np.frombuffer(np.uint64(0xfff8000000000001).tobytes(), "<f8")[0]]   # negative quiet NaN
+# (no signalling NaN: numpy's strided fmin/fmax reductions return NaN when they meet one, so
+#  np.nanmin of a box holding an sNaN is NaN although finite values exist - a numpy quirk that
+#  would be blamed on taste's binary_data comparison)
 
 
 def gen_model(seed, ndims=3, nlevels=None, nfields=None, base=None, bf=4, maxsz=None,
@@ -290,8 +293,12 @@ def _payload(m, lv, bi, b, payload, nprng):
             flat = arr.reshape(-1)
             k = min(flat.size, len(SPECIALS))
             pos = nprng.choice(flat.size, size=k, replace=False)
+            keep = arr.copy()
             for p, v in zip(pos, SPECIALS):
                 flat[p] = v
+            for f in range(shp[-1]):      # no all-NaN box component (no canonical min/max row)
+                if np.isnan(arr[..., f]).all():
+                    arr[..., f] = keep[..., f]
         return arr
     if payload == "positive":
         arr = nprng.random(shp) + 0.25
